@@ -11,7 +11,11 @@ import msggen
 THEOREMS = ["C07.c07_prim", "C06.c06_pump_total", "C08.c08_skip_exceeded", "C08.c08_pad_subceeded",
             "WI.bind", "owner_wi", "bytes_no_own", "decode_wi", "sizedLoop_wi", "decodeCommand_wm", "decodeResponse_wm", "decodeStream_wm",
             "runWalker_wm", "C08.c08_no_escape_msg", "C08.c08_no_escape_type", "runWalker_mrel",
-            "runWalker_acctw", "ownCatch_acctw", "assertDoneSC_acctw", "C08.c08_tiling"]
+            "runWalker_acctw", "ownCatch_acctw", "assertDoneSC_acctw", "C08.c08_tiling",
+            # warn mode never ends in an internal error (WarnNC.lean, Props/C08N.lean)
+            "WC.bind", "owner_wc", "decode_wa", "sizedLoop_wc", "decodeCommand_cm", "decodeResponse_rm", "decodeStream_ncxw",
+            "runWalker_ncxw", "decode_pi", "decodeCommand_pi", "decodeResponse_pi",
+            "C08.c08_warn_no_crash_type", "C08.c08_warn_no_crash_command", "C08.c08_warn_crash_msg", "C08.c08_warn_outcomes"]
 
 
 def allowed_escape(block):
@@ -148,6 +152,10 @@ def run(ctx, replay_case):
     })
 
 
-PROP = {"targets": ["TpmProofs.Props.C08W"], "module": "TpmProofs.Props.C08W", "theorems": THEOREMS, "run": run,
-        "assumptions": ["the whole-run statements (no escape, tiling) are monitored on the implementation and tied to the model by correspondence; "
-                        "the recovery steps themselves (skip to the region end, padding) are theorems about the model"]}
+PROP = {"targets": ["TpmProofs.Props.C08W", "TpmProofs.Props.C08N"], "module": "TpmProofs.Props.C08N",
+        "checker_modules": ["TpmProofs.Props.C08W", "TpmProofs.Props.C08N"], "theorems": THEOREMS, "run": run,
+        "assumptions": ["no size error escapes, no internal error but the known assertion (every layout of /repo, every command code, streams, every input), "
+                        "tiling and the first-problem relation are theorems about the model; the model is tied to the implementation by the warn-mode "
+                        "correspondence of this check and the same statements are monitored on the implementation's own observations",
+                        "the value-only clause is proved as re-encoding (C02.c02_warn_value_only) and as the first-problem relation (C07), not as an equality "
+                        "with a separately defined lenient interpretation"]}
